@@ -1,5 +1,5 @@
 (* C03 — A volume survives a crash at any point without serving wrong data.
-   Only statements closed by [exact]; proofs live in proof/VolumeCrash{Proofs,Load,Spec,Safe}.v.
+   Only statements closed by [exact]; proofs live in proof/VolumeCrash{Proofs,Load,Spec,Sim,Safe}.v.
 
    [crc] is the CRC32-Castagnoli oracle (any function list N -> N).  A history [h] is a list of
    Write / Delete operations on a version-3 volume; [p_run h] is the running volume (its .dat as a
@@ -9,10 +9,13 @@
    entry is verified at the tombstone record it points to, a torn trailing index entry is
    dropped); [l_read] / [l_write] are readNeedle / Store.WriteVolumeNeedle on the reopened volume.
    [wf_op]: a write carries a representable needle with a non-empty payload and
-   Checksum = NewCRC(Data). *)
+   Checksum = NewCRC(Data); [wf_any]: the same without "non-empty" (finding 0).
+   [admissible] requires the super block (8 bytes, written when the volume is created) to have
+   survived: the property speaks of a stop "while appending blobs or tombstones"; a shorter
+   .dat is refused by Volume.load ("not initialized"), modelled as LNotLoaded and exercised. *)
 From Coq Require Import List NArith ZArith Bool.
 From SW Require Import model.Needle proof.NeedleProofs model.VolumeCrash proof.VolumeCrashProofs
-  proof.VolumeCrashLoad proof.VolumeCrashSpec proof.VolumeCrashSafe.
+  proof.VolumeCrashLoad proof.VolumeCrashSpec proof.VolumeCrashSim proof.VolumeCrashSafe.
 Import ListNotations.
 Local Open Scope N_scope.
 
@@ -49,6 +52,36 @@ Theorem c03_crash_safe_per_spec : forall crc h dcut icut, Forall (wf_op crc) h -
 Proof. exact crash_safe_per_spec. Qed.
 Print Assumptions c03_crash_safe_per_spec.
 
+(* "ACCEPTS AND SERVES NEW WRITES AFTERWARDS", at full strength: the reopened volume is from then on
+   indistinguishable from the volume that ran h1 and never stopped.  After ANY further well-formed
+   operations h' -- overwrites of existing keys, rewrites of deleted keys, deletes, refused
+   (other cookie) and repeated writes, fresh keys -- every key reads exactly as in the running
+   volume after h1 ++ h', and every further operation [o] is answered ([l_step]: done / unchanged /
+   refused / read-only, size deleted) exactly as the running volume answers it ([p_res]).  Proved by
+   a per-key simulation between the byte-level reopened volume and the record-level running one
+   (proof/VolumeCrashSim.v); it also holds when garbage of a torn first record stays in the .dat. *)
+Theorem c03_crash_safe_forever : forall crc h dcut icut, Forall (wf_op crc) h ->
+  admissible (p_run h) dcut icut = true ->
+  exists h1 h2 L,
+    h = h1 ++ h2 /\ len (p_idx (p_run h1)) = icut / NeedleMapEntrySize /\
+    load crc (crash (p_run h) dcut icut) = Loaded L /\ l_nwod L = false /\
+    forall h', Forall (wf_op crc) h' ->
+      (forall k, l_read crc (l_after crc L h') k = p_read (p_run (h1 ++ h')) k) /\
+      (forall o, wf_op crc o -> snd (l_step crc (l_after crc L h') o) = p_res (p_run (h1 ++ h')) o).
+Proof. exact crash_safe_forever. Qed.
+Print Assumptions c03_crash_safe_forever.
+
+(* ... and per specification: after the reopen and any further operations h' the volume answers
+   every key as the operation-level specification does after h1 ++ h' *)
+Theorem c03_crash_safe_forever_per_spec : forall crc h dcut icut, Forall (wf_op crc) h ->
+  admissible (p_run h) dcut icut = true ->
+  exists h1 h2 L, h = h1 ++ h2 /\ snd (s_run h1) = icut / NeedleMapEntrySize /\
+    load crc (crash (p_run h) dcut icut) = Loaded L /\ l_nwod L = false /\
+    forall h', Forall (wf_op crc) h' ->
+      forall k, l_read crc (l_after crc L h') k = s_read (fst (s_run (h1 ++ h'))) k.
+Proof. exact crash_safe_forever_per_spec. Qed.
+Print Assumptions c03_crash_safe_forever_per_spec.
+
 (* the running volume itself reads per specification, for every history *)
 Theorem c03_running_reads_per_spec : forall crc h, Forall (wf_op crc) h ->
   snd (s_run h) = len (p_idx (p_run h)) /\ forall k, p_read (p_run h) k = s_read (fst (s_run h)) k.
@@ -70,30 +103,67 @@ Theorem c03_running_invariant : forall crc h, Forall (wf_op crc) h -> Inv crc (p
 Proof. exact inv_run. Qed.
 Print Assumptions c03_running_invariant.
 
-(* non-vacuity, on the history hello / world!! / delete 1 / second version (harness cases 0, 1):
-   it is well formed; the crash points of the two repaired findings are admissible and the model
-   now reopens them writable (tombstone last in the index + 5 torn bytes behind it: the tail is
-   cut and key 1 stays deleted; second index entry torn after 7 bytes: one entry remains); a
-   third admissible point; and a point that write order excludes. *)
+(* FINDING 0 (c03-empty-blob-gone-after-restart).  [wf_any] is [wf_op] without "the payload is not
+   empty".  With empty payloads the full statement is false, even for a clean stop: the blob is
+   stored as a record of Size 0 with an index entry of size 0, and replaying the index
+   (needle_map_memory.go doLoading) treats a size-0 entry as a deletion. *)
+Theorem c03_crash_safe_refuted : exists crc h dcut icut, Forall (wf_any crc) h /\
+  admissible (p_run h) dcut icut = true /\ ~ crash_safe_at crc h dcut icut.
+Proof. exact crash_safe_refuted. Qed.
+Print Assumptions c03_crash_safe_refuted.
+
+(* ... and holds for every history that stores no empty blob (decidable trigger
+   [has_empty_write]; the correspondence check uses the narrower per-key trigger
+   [key_has_empty_write] and checks every other key of such a history in full) *)
+Theorem c03_crash_safe_partial : forall crc h dcut icut, Forall (wf_any crc) h ->
+  has_empty_write h = false -> admissible (p_run h) dcut icut = true ->
+  crash_safe_at crc h dcut icut.
+Proof. exact crash_safe_partial. Qed.
+Print Assumptions c03_crash_safe_partial.
+
+(* the witness of finding 0 (harness case 2): hello / EMPTY / x stopped with both files whole;
+   the running volume answers (0, nil) for key 2 (class 3), the reopened one "not found" (1) *)
+Example c03_finding0_witness :
+  admissible (p_run w_empty_history) 120 48 = true /\
+  len (p_dat (p_run w_empty_history)) = 120 /\ len (p_idx (p_run w_empty_history)) = 3 /\
+  empty_live (p_run w_empty_history) 2 = true /\ key_has_empty_write w_empty_history 2 = true /\
+  map (fun k => rres_proj (p_read (p_run w_empty_history) k)) [1; 2; 3] =
+    [(0, 17, [104; 101; 108; 108; 111]); (3, 0, []); (0, 4294967283, [120])] /\
+  o_reads (observe toy_crc (crash (p_run w_empty_history) 120 48) [1; 2; 3] [] 0) =
+    [(0, 17, [104; 101; 108; 108; 111]); (1, 0, []); (0, 4294967283, [120])].
+Proof. exact witness_empty_blob. Qed.
+Print Assumptions c03_finding0_witness.
+
+(* non-vacuity, on the history hello / world!! / delete 1 / second version (harness cases 0, 1)
+   followed on every reopened volume by [w_post] (rewrite of the deleted key 1, delete of key 2, a
+   fresh key 9, the same bytes again, key 1 with another cookie) and a second stop: the history
+   is well formed; the crash points of the two repaired findings are admissible and the model now
+   reopens them writable; a third admissible point; and a point that write order excludes.  The
+   full observations (three stages each) are the lemmas witness_* of proof/VolumeCrashSafe.v. *)
 Example c03_example :
   Forall (wf_op toy_crc) w_history /\
   (admissible (p_run w_history) 133 48 = true /\ tombstone_tail (p_run w_history) 133 48 = true /\
-   observe toy_crc (crash (p_run w_history) 133 48) [1; 2; 3] w_fresh =
-     {| o_load := 0; o_readonly := false; o_dat_len := 128; o_idx_len := 48;
-        o_reads := [(2, 0, []); (0, 305419896, [119; 111; 114; 108; 100; 33; 33]); (1, 0, [])];
-        o_write := 0; o_fresh := (0, 7, [102; 114; 101; 115; 104]); o_dat_len2 := 168; o_idx_len2 := 64 |}) /\
+   observe toy_crc (crash (p_run w_history) 133 48) [1; 2; 9] w_post 9 =
+    {| o_load := 0; o_readonly := false; o_dat_len := 128; o_idx_len := 48;
+       o_reads := [(2, 0, []); (0, 305419896, [119; 111; 114; 108; 100; 33; 33]); (1, 0, [])];
+       o_post := [(0, 0%Z); (0, 12%Z); (0, 0%Z); (1, 0%Z); (3, 0%Z)];
+       o_reads2 := [(0, 17, [97; 103; 97; 105; 110]); (2, 0, []); (0, 7, [102; 114; 101; 115; 104])];
+       o_dat_len2 := 240; o_idx_len2 := 96; o_load3 := 0; o_readonly3 := false;
+       o_reads3 := [(0, 17, [97; 103; 97; 105; 110]); (2, 0, []); (1, 0, [])];
+       o_dat_len3 := 200; o_idx_len3 := 80 |}) /\
   (admissible (p_run w_history) 96 23 = true /\ torn_index 23 = true /\
-   observe toy_crc (crash (p_run w_history) 96 23) [1; 2; 3] w_fresh =
-     {| o_load := 0; o_readonly := false; o_dat_len := 48; o_idx_len := 16;
-        o_reads := [(0, 17, [104; 101; 108; 108; 111]); (1, 0, []); (1, 0, [])];
-        o_write := 0; o_fresh := (0, 7, [102; 114; 101; 115; 104]); o_dat_len2 := 88; o_idx_len2 := 32 |}) /\
-  (admissible (p_run w_history) 105 32 = true /\
-   observe toy_crc (crash (p_run w_history) 105 32) [1; 2; 3] w_fresh =
-     {| o_load := 0; o_readonly := false; o_dat_len := 96; o_idx_len := 32;
-        o_reads := [(0, 17, [104; 101; 108; 108; 111]); (0, 305419896, [119; 111; 114; 108; 100; 33; 33]); (1, 0, [])];
-        o_write := 0; o_fresh := (0, 7, [102; 114; 101; 115; 104]); o_dat_len2 := 136; o_idx_len2 := 48 |}) /\
+   observe toy_crc (crash (p_run w_history) 96 23) [1; 2; 9] w_post 0 =
+    {| o_load := 0; o_readonly := false; o_dat_len := 48; o_idx_len := 16;
+       o_reads := [(0, 17, [104; 101; 108; 108; 111]); (1, 0, []); (1, 0, [])];
+       o_post := [(0, 0%Z); (0, 0%Z); (0, 0%Z); (1, 0%Z); (3, 0%Z)];
+       o_reads2 := [(0, 17, [97; 103; 97; 105; 110]); (1, 0, []); (0, 7, [102; 114; 101; 115; 104])];
+       o_dat_len2 := 128; o_idx_len2 := 48; o_load3 := 0; o_readonly3 := false;
+       o_reads3 := [(0, 17, [97; 103; 97; 105; 110]); (1, 0, []); (0, 7, [102; 114; 101; 115; 104])];
+       o_dat_len3 := 128; o_idx_len3 := 48 |}) /\
+  admissible (p_run w_history) 105 32 = true /\
   admissible (p_run w_history) 60 32 = false.
 Proof.
   exact (conj w_history_wf (conj witness_tombstone_tail (conj witness_torn_index
-        (conj witness_torn_record not_admissible_example)))).
+        (conj (proj1 witness_torn_record) not_admissible_example)))).
 Qed.
+Print Assumptions c03_example.
